@@ -144,15 +144,50 @@ func RSlot(c *core.Ctx) {
 			}
 		}
 		c.Check(okLk && !raw, "regexp2.(*Match).GroupByNumber / number mapped through sparseCaps before indexing", gbn.Pos(), "lookup sparseCaps[num]: %v; raw num used as an index: %v", okLk, raw)
+		// a number that is NOT in the sparse map is not a group: it must not fall through as if it were a slot
+		miss := token.NoPos
+		for _, b := range gbn.Blocks {
+			for _, ins := range b.Instrs {
+				phi, ok := ins.(*ssa.Phi)
+				if !ok {
+					continue
+				}
+				for i, e := range phi.Edges {
+					if e != gbn.Params[1] {
+						continue
+					}
+					// the raw parameter arrives over edge i: was that edge taken because the lookup failed?
+					pred := b.Preds[i]
+					for _, f := range core.FactsOnEdge(pred, b) {
+						if ex, ok := f.Cond.(*ssa.Extract); ok && !f.Val {
+							if lk, ok := ex.Tuple.(*ssa.Lookup); ok && lk.CommaOk && ex.Index == 1 {
+								if _, ok := core.LoadOfField(lk.X, sparse); ok {
+									miss = phi.Pos()
+									if miss == token.NoPos {
+										miss = gbn.Pos()
+									}
+								}
+							}
+						}
+					}
+				}
+			}
+		}
+		c.Check(miss == token.NoPos, "regexp2.(*Match).GroupByNumber / a number missing from sparseCaps is not used as a slot", gbn.Pos(), "when sparseCaps has no entry for num the raw number continues to the bounds test and the slot index: with groups 5 and 10, GroupByNumber(1) returns group 5 instead of nil")
 		// internal callers
 		gnfn := p.SSAFunc(p.LookupFunc("", "Regexp.GroupNumberFromName"))
+		gname := p.SSAFunc(p.LookupFunc("", "Regexp.GroupNameFromNumber"))
 		k := 0
 		for _, fn := range p.ModuleFuncs() {
 			for _, b := range fn.Blocks {
 				for _, ins := range b.Instrs {
 					call, ok := ins.(*ssa.Call)
-					if !ok || call.Call.StaticCallee() != gbn {
+					if !ok || (call.Call.StaticCallee() != gbn && (gname == nil || call.Call.StaticCallee() != gname)) {
 						continue
+					}
+					callee := "GroupByNumber"
+					if call.Call.StaticCallee() != gbn {
+						callee = "GroupNameFromNumber"
 					}
 					k++
 					arg := call.Call.Args[1]
@@ -173,7 +208,7 @@ func RSlot(c *core.Ctx) {
 							okArg = false // loop counter: phi(const, i+1)
 						}
 					}
-					c.Check(okArg, fmt.Sprintf("%s / GroupByNumber call #%d is given a group number", core.SSAName(fn), k), call.Pos(), "argument %s must come from GroupNumberFromName or the caller's parameter; a dense index is not a group number when numbering is sparse", arg.String())
+					c.Check(okArg, fmt.Sprintf("%s / %s call #%d is given a group number", core.SSAName(fn), callee, k), call.Pos(), "argument %s must come from GroupNumberFromName or the caller's parameter; a dense index is not a group number when numbering is sparse", arg.String())
 				}
 			}
 		}
